@@ -440,6 +440,10 @@ def _cfg_loop():
         # every iteration does exactly one of: discard a cancelled job / hand a due job over / sleep (a loop that does none of them spins)
         nojob = decided(engine, st, "retry._submit_loop", "not {$call:_get_next_job|job}", True)
         due = decided(engine, st, "retry._submit_loop", "{$call:_get_next_job|job}.when <= {$call:monotonic|now}")
+        if not decided(engine, st, "retry._submit_loop", "not {$call:_get_next_job|job}"):
+            # the test `not job` is not among this iteration's decisions: the loop's conditions were rewritten in a way these clauses cannot
+            # follow by label.  Say nothing (the baseline guard then reports the clauses as not generated: undecided, not a violation).
+            return out
         if nojob:
             out.append(("nothing queued: the thread sleeps until it is woken (one untimed wait)", z3.BoolVal(len(waits) == 1 and not subs and waits[0][1].args[0] is None)))
         elif not stopped and due and due[-1]:
